@@ -14,9 +14,11 @@ HARNESSES = [
     ("solset", True, "asan"),
     ("motion", True, "asan"),
     ("bounds", True, None),
+    ("rng", True, None),
+    ("conc", True, None),
 ]
 
-HOOK_COMMITS = []
+HOOK_COMMITS = ["verification hooks (guard OMPL_VERIF): shared-state access events"]
 
 CHECKS = {
     "C11": dict(
@@ -53,6 +55,42 @@ CHECKS["C08"] = dict(
     note="Off the lattice only the laws are judged; seeds are sampled (50 quick / 500 thorough); RNG is not scripted.",
     technique="TLA+ lattice model + TLC, model-generated case replay, scripted-validity replay of sampler state machines, TLC trace validation",
     design="3/C06-C08")
+
+CHECKS["C04"] = dict(
+    level="model_checking",
+    text="Ranking: SolutionSet.tla transcribes PlannerSolution::operator<; TLC proves it a strict weak order equal to the "
+         "documented ranking on homogeneous sets, explores every add/clear history (multisets of <= 4 over 8 rank classes) and "
+         "every transition + random walks are replayed on the real ProblemDefinition; recorded histories are validated by TLC. "
+         "Costs: continued solves of all 20 optimizing planners under 5 objectives are recorded with independently recomputed "
+         "costs and judged by PlannerCostTrace (stored never better than true, equal unless propagation is deferred, true never "
+         "better than the admissible lower bound, optimized iff threshold met, best stored cost never worse, best first).",
+    note="Ranking judged on homogeneous sets only. Cost tolerance 4e-5 abs + 1e-5 rel. Max-min clearance objective not included "
+         "(DESIGN.md C04 limits). Planner runs are sampled (environments, seeds, budgets).",
+    technique="TLA+ spec of the comparator + TLC; state-graph replay; TLC trace validation of recorded cost reports",
+    design="3/C04")
+CHECKS["C19"] = dict(
+    level="model_checking",
+    text="Protocol model of the motion counters at the code's atomicity checked by TLC over all interleavings (atomic form "
+         "holds, two-step form loses an update); real 2..16-thread executions of the thread-safe surface recorded through "
+         "guarded hooks (thread, resource, read/write, atomicity from the declared type, measured lockset, fork/join) are "
+         "validated by TLC against SharedMemTrace.tla: vector-clock/lockset data-race rule plus contract events (counters = "
+         "calls, seeds = sequential set, unique names, complete ranked solution set, exact GNAT answers, terminate observed "
+         "and sticky); multi-threaded planners judged by the single-threaded PlannerContract on sampled schedules.",
+    note="Only hooked resources are seen; real schedules are sampled (interleavings enumerated on the model only); lock "
+         "ownership read from glibc's mutex owner field.",
+    technique="TLA+ protocol model + TLC; TLC trace validation of hook traces against a happens-before/lockset race rule",
+    design="3/C19")
+CHECKS["C20"] = dict(
+    level="model_checking",
+    text="SeedGen.tla transcribes the global seed generator; TLC checks that the i-th local seed depends only on (seed, i) over "
+         "all call histories and emits them; each history runs in its own fresh process and TLC (Determinism.tla) validates that "
+         "equal abstract seeds gave equal values across processes. RngStream.tla models one RNG with its distribution caches; "
+         "TLC checks ReseedReproduces (and sees the stale-cache variant fail); every pre/reseed/post scenario is replayed "
+         "bitwise. Every single-threaded planner runs twice in separate processes per problem/seed/budget; the complete "
+         "outcomes (status, evaluation count, hash of all validity queries, solution bits) are validated by TLC.",
+    note="Same binary and machine; separate processes. Planner runs sampled.",
+    technique="TLA+ spec + TLC; fresh-process scenario replay; TLC validation of paired run observations",
+    design="3/C20")
 
 NOT_APPLICABLE = {
     "C14": "every clause is a floating-point relation over sqrt/atan2 on a pure function; no discrete state or exact "
